@@ -22,9 +22,11 @@ type Verifier struct {
 	named          map[string]*types.Named
 	sendFields     map[string]bool // "pkg.T.field" on which some Send instruction in the module operates
 	closeFields    map[string][]string
+	escapingChanFields map[string]string // chan field -> why its channels are not confined to the field
 	sweepDone      bool
 	curExec        *Exec
 	interfMemo     map[*ssa.Function]int
+	sharedMaps     map[string]bool
 	effMemo        map[*ssa.Function]map[string]bool
 }
 
@@ -66,6 +68,31 @@ func (v *Verifier) namedByName(n string) *types.Named {
 func (v *Verifier) isShared(f string) bool {
 	if f == "G$closed" || f == "G$clen" || f == "G$wg" || f == "G$ccap" {
 		return true
+	}
+	if strings.HasPrefix(f, "M$") {
+		// contents of maps stored in monitor-guarded fields are owned by the monitor as well
+		if v.sharedMaps == nil {
+			v.sharedMaps = map[string]bool{}
+			for tk, tc := range v.C.Types {
+				root := v.namedByName(tk)
+				if root == nil {
+					continue
+				}
+				for _, m := range tc.Monitors {
+					for fld := range m.Guards {
+						if mt, ok := fieldTypeAt(root, []string{fld}).Underlying().(*types.Map); ok {
+							v.sharedMaps["M$"+typeName(mt.Key())+"$"+typeName(mt.Elem())+"$"] = true
+						}
+					}
+				}
+			}
+		}
+		for pre := range v.sharedMaps {
+			if strings.HasPrefix(f, pre) {
+				return true
+			}
+		}
+		return false
 	}
 	if !strings.HasPrefix(f, "H$") {
 		return false
@@ -154,12 +181,58 @@ func (v *Verifier) sweep() {
 	v.sweepDone = true
 	v.sendFields = map[string]bool{}
 	v.closeFields = map[string][]string{}
+	v.escapingChanFields = map[string]string{}
 	for fn := range v.P.All {
 		if fn.Package() == nil || fn.Package().Pkg == nil || !strings.HasPrefix(fn.Package().Pkg.Path(), modulePath) {
 			continue
 		}
 		for _, b := range fn.Blocks {
 			for _, in := range b.Instrs {
+				// channel fields: do the channels stored in the field stay inside it?
+				if st, ok := in.(*ssa.Store); ok {
+					if fa, ok := st.Addr.(*ssa.FieldAddr); ok {
+						if ns := namedStruct(pointee(fa.X.Type())); ns != nil {
+							stt := ns.Underlying().(*types.Struct)
+							f := stt.Field(fa.Field)
+							if _, isChan := f.Type().Underlying().(*types.Chan); isChan {
+								k := typeName(ns) + "." + f.Name()
+								switch val := st.Val.(type) {
+								case *ssa.MakeChan:
+								case *ssa.Const:
+									_ = val
+								default:
+									v.escapingChanFields[k] = "assigned from " + v.P.Pos(st.Pos())
+								}
+							}
+						}
+					}
+				}
+				if u, ok := in.(*ssa.UnOp); ok && u.Op == token.MUL {
+					if k := chanFieldKey(u); k != "" {
+						for _, ref := range *u.Referrers() {
+							okUse := false
+							switch r := ref.(type) {
+							case *ssa.Send:
+								okUse = r.Chan == ssa.Value(u)
+							case *ssa.UnOp:
+								okUse = r.Op == token.ARROW
+							case *ssa.Select:
+								okUse = true
+							case *ssa.Call:
+								if bi, isB := r.Call.Value.(*ssa.Builtin); isB && (bi.Name() == "close" || bi.Name() == "len" || bi.Name() == "cap") {
+									okUse = true
+								}
+							case *ssa.BinOp:
+								okUse = true // comparison with nil
+							case *ssa.DebugRef:
+								okUse = true
+							}
+							if !okUse {
+								v.escapingChanFields[k] = "value flows elsewhere at " + v.P.Pos(ref.Pos())
+							}
+						}
+					}
+				}
 				switch i := in.(type) {
 				case *ssa.Send:
 					if k := chanFieldKey(i.Chan); k != "" {
@@ -200,8 +273,8 @@ func (v *Verifier) noSendChan(x *Exec, ap string) bool {
 		}
 	}
 	if k, ok := x.chanKeys[ap]; ok && k != "" {
-		if _, inModule := v.P.TPkgs[strings.SplitN(k, ".", 2)[0]]; inModule && !v.sendFields[k] {
-			x.note("frame sweep: no send instruction on field " + k + " anywhere in the module (close-only channel)")
+		if _, inModule := v.P.TPkgs[strings.SplitN(k, ".", 2)[0]]; inModule && !v.sendFields[k] && v.escapingChanFields[k] == "" {
+			x.note("frame sweep: channels of field " + k + " are created by the module, never leave the field, and no send instruction operates on it (close-only channel)")
 			return true
 		}
 	}
@@ -230,6 +303,11 @@ func (v *Verifier) VerifyFunc(key string) (res *FuncResult) {
 	}
 	if fc == nil {
 		res.Unsupported = "no contract"
+		return
+	}
+	if fc.Has("trusted") {
+		res.Notes = append(res.Notes, "TRUSTED contract (body not verified): "+key)
+		res.Pos = v.P.Pos(fn.Pos())
 		return
 	}
 	res.Pos = v.P.Pos(fn.Pos())
@@ -261,6 +339,14 @@ func (v *Verifier) VerifyFunc(key string) (res *FuncResult) {
 			panic(r)
 		}
 	}()
+	x.ghostLetNames = map[string]bool{}
+	x.ghostLetTypes = map[string]types.Type{}
+	for _, cl := range fc.Of("ghost") {
+		if strings.HasPrefix(cl.Text, "let ") {
+			n := strings.TrimSpace(strings.SplitN(strings.TrimPrefix(cl.Text, "let "), "=", 2)[0])
+			x.ghostLetNames[n] = true
+		}
+	}
 	x.prescan()
 	st := &State{Cells: map[*Cell]*Val{}, Heap: map[string]*Term{}, Held: map[string]*Held{}, FreshRefs: map[string]bool{}, Closures: map[string]*Closure{}, CallCount: map[string]int{}}
 	fr := &Frame{Fn: fn, Regs: map[ssa.Value]*Val{}, Blk: fn.Blocks[0], LoopSeen: map[*ssa.BasicBlock]bool{}}
@@ -355,12 +441,24 @@ func (v *Verifier) VerifyFunc(key string) (res *FuncResult) {
 		}
 	}
 	for _, cl := range fc.Of("ghost") {
+		if strings.HasPrefix(cl.Text, "owns ") {
+			// a channel (or other object) only this thread may close / mutate: exempt from interference
+			e, err := ParseExpr(strings.TrimPrefix(cl.Text, "owns "))
+			if err != nil {
+				panic(unsupported{err.Error()})
+			}
+			ov := v.eval(env, e)
+			if ov.Term != nil {
+				st.FreshList = append(st.FreshList, ov.Term)
+				x.note("ASSUMED ownership: only this goroutine closes " + cl.Text[5:] + " (handed out receive-only)")
+			}
+		}
 		if strings.HasPrefix(cl.Text, "consumes-wg ") {
 			e, err := ParseExpr(strings.TrimPrefix(cl.Text, "consumes-wg "))
 			if err != nil {
 				panic(unsupported{err.Error()})
 			}
-			r := x.refOf(v.eval(env, e))
+			r := x.refOf(v.syncRef(env, e))
 			mine := st.ghostArr("wgmine", SInt)
 			st.setGhostArr("wgmine", Store(mine, r, IntLit(1)))
 			st.Assume(Ge(Select(st.ghostArr("wg", SInt), r), IntLit(1)))
@@ -425,6 +523,8 @@ func (x *Exec) prescanFn(fn *ssa.Function, depth int, seen map[*ssa.Function]boo
 				for _, s := range i.States {
 					x.chanKeys[accessPath(s.Chan)] = chanFieldKey(s.Chan)
 				}
+			case *ssa.Send:
+				x.chanKeys[accessPath(i.Chan)] = chanFieldKey(i.Chan)
 			}
 			if c == nil {
 				continue
@@ -615,4 +715,64 @@ func (v *Verifier) ghostEffects(fn *ssa.Function) map[string]bool {
 	}
 	scan(fn, 0)
 	return out
+}
+
+// neverClosedField: the module contains no close() on the struct field the channel is loaded from.
+func (v *Verifier) neverClosedField(x *Exec, ap string) bool {
+	v.sweep()
+	if k, ok := x.chanKeys[ap]; ok && k != "" {
+		if _, inModule := v.P.TPkgs[strings.SplitN(k, ".", 2)[0]]; inModule && len(v.closeFields[k]) == 0 && v.escapingChanFields[k] == "" {
+			x.note("frame sweep: channels of field " + k + " are created by the module, never leave the field, and no close() operates on it (never closed)")
+			return true
+		}
+	}
+	return false
+}
+
+// labelType: type of the idx-th argument (kind "sarg", receiver first) or result (kind "sret") of the
+// statically bound function whose contract carries `ghost label L`.
+func (v *Verifier) labelType(label, kind string, idx int) types.Type {
+	find := func(fcs map[string]*FuncContract, assumed bool) *types.Signature {
+		for key, fc := range fcs {
+			for _, cl := range fc.Of("ghost") {
+				if cl.Text == "label "+label {
+					if !assumed {
+						if fn := v.P.Funcs[key]; fn != nil {
+							return fn.Signature
+						}
+					} else {
+						for fn := range v.P.All {
+							if fn.String() == key {
+								return fn.Signature
+							}
+						}
+					}
+				}
+			}
+		}
+		return nil
+	}
+	sig := find(v.C.Funcs, false)
+	if sig == nil {
+		sig = find(v.C.Assumed, true)
+	}
+	if sig == nil {
+		return nil
+	}
+	if kind == "sret" {
+		if idx < sig.Results().Len() {
+			return sig.Results().At(idx).Type()
+		}
+		return nil
+	}
+	if r := sig.Recv(); r != nil {
+		if idx == 0 {
+			return r.Type()
+		}
+		idx--
+	}
+	if idx < sig.Params().Len() {
+		return sig.Params().At(idx).Type()
+	}
+	return nil
 }
